@@ -328,6 +328,12 @@ def gen_steps(r, cols: Dict[str, str], tables: Dict[str, Dict[str, str]], max_st
                 if st["limit"] == 0:
                     st["limit"] = 1
             steps.append(st)
+            if kind == "order_rows" and r.random() < 0.3:
+                # two orderings in a row sharing a column with the opposite direction: only the last one counts
+                shared = r.choice(order)
+                o2 = [shared] + ([keys[0]] if keys and keys[0] != shared else [])
+                rev2 = [] if shared in rev else [shared]
+                steps.append({"t": "order_rows", "cols": o2, "reverse": rev2, "limit": r.choice([None, 1, 2, 3])})
             if kind == "order_limit" and len(names) > len(order) and r.random() < 0.4:
                 # a limit in the middle of a pipeline whose consumer no longer carries (all of) the order columns
                 victim = r.choice(order)
